@@ -353,6 +353,48 @@ func (p *c06) Run(rec *core.Recorder, seed uint64, idx int, tier string) {
 		return
 	}
 
+	// (2b) the policy is what it says at the time of the render: the same engine first renders with the name allowed, then the
+	// policy object is edited in place (no EnableSandbox call) and the name is forbidden from then on
+	if !spyOnly && idx%3 == 0 {
+		pol := mkPolicy(false)
+		spy5 := &c06Spy{}
+		var first, second Result
+		second.Panicked, second.Site, second.PanicVal, second.Stack = core.Guard(func() {
+			e := freshEngine(srcs)
+			p.engine(spy5, pol, name)(e)
+			first.Out, first.Err = e.Render("main", ctx)
+			// revoke in place
+			switch pp := pol.(type) {
+			case *twig.DefaultSecurityPolicy:
+				if kind == "filter" {
+					delete(pp.AllowedFilters, name)
+				} else {
+					delete(pp.AllowedFunctions, name)
+				}
+			case *c06Policy:
+				if kind == "filter" {
+					delete(pp.filters, name)
+				} else {
+					delete(pp.functions, name)
+				}
+			}
+			spy5.log = nil
+			second.Out, second.Err = e.Render("main", ctx)
+		})
+		rec.Count("revoked-in-place-checks", 1)
+		if second.Panicked {
+			rec.Violate("panic", "panic@"+second.Site, "engine panicked: "+second.PanicVal, cs, second.Stack)
+			return
+		}
+		for _, l := range spy5.log {
+			if l == forbiddenTag {
+				rec.Violate("spy", fmt.Sprintf("sandbox-bypass-after-revoke:pos%d:%s", pos, kind),
+					fmt.Sprintf("%s %q was allowed for a first render and then removed from the policy object; the next sandboxed render on the same engine still invoked it (position %q, route %d): out=%q err=%v", kind, name, c06Positions[pos], route, core.Trunc(second.Out, 120), second.Err), cs, "")
+				return
+			}
+		}
+	}
+
 	// (3) the including template keeps its permissions outside the sandbox
 	if idx%4 == 0 {
 		outer := map[string]string{"benign": "(b)", "sb": "inner {{ v|okf }}"}
